@@ -924,6 +924,7 @@ impl StunClient {
                         events.push(StunClientEvent::OutputPacket(transaction.packet.clone()));
                     }
                     None => {
+                        self.transactions.remove(&transaction_id);
                         let protection_violated = self.mechanism.as_mut().is_some_and(|m| {
                             m.signal_protection_violated_on_timeout(&transaction_id)
                         });
